@@ -136,10 +136,18 @@ MODELS = [
     ('trap_sav', Z.TrapSav, [Z.TrapSav, Z.Sub, Z.Trap], [
         M(a=M(x=I(1)), b_c=M(x=I(2)), n=I(1)),
     ]),
+    # ---- C18: nested collections of values whose processing is not
+    # idempotent (aliases inside aliased collections, D25)
+    ('nest_path', List[List[pathlib.Path]], [], [
+        Q(Q(S('a'), S('b')), Q(S('c')))]),
+    ('nest_enum', Dict[str, List[Z.Color]], [Z.Color], [
+        M(k=Q(S('red'), B('true')), j=Q(S('green')))]),
+    ('nest_sav', List[List[Z.Sav]], [Z.Sav, Z.Sub], [
+        Q(Q(M(a=I(1)), M(aa=I(2), b=S('y'))))]),
 ]
 CORE = {m[0] for m in MODELS if not m[0].startswith('trap_')
         and m[0] not in ('order', 'typed', 'req4', 'firm', 'extra_default',
-                         'job')}
+                         'job', 'nest_path', 'nest_enum', 'nest_sav')}
 GROUP_C02 = (CORE - {'perm', 'versioned'}) | {'order', 'firm', 'extra_default',
                                             'job'}
 GROUP_C08 = CORE | {'order', 'job', 'extra_default'}
